@@ -509,6 +509,7 @@ impl ByteArrayDecoderDeltaLength {
         // Compute and extend offsets in batch using extend
         let base_offset = initial_values_length;
         let mut running = base_offset;
+        let first_new_offset = output.offsets.len();
         output.offsets.extend(src_lengths.iter().map(|length| {
             running += *length as usize;
             I::from_usize(running).expect("index overflow decoding byte array")
@@ -519,6 +520,19 @@ impl ByteArrayDecoderDeltaLength {
 
         if self.validate_utf8 {
             output.check_valid_utf8(initial_values_length)?;
+            // The values are valid UTF-8 as a whole; every value also has to start
+            // at the start of a code point (see `OffsetBuffer::check_valid_utf8`)
+            let values = output.values.as_slice();
+            for offset in &output.offsets[first_new_offset..] {
+                // A code point starts iff the byte is not 0b10xxxxxx
+                if let Some(&b) = values.get(offset.as_usize())
+                    && (b as i8) < -0x40
+                {
+                    return Err(ParquetError::General(
+                        "encountered non UTF-8 data".to_string(),
+                    ));
+                }
+            }
         }
         Ok(to_read)
     }
